@@ -249,4 +249,4 @@ def run(rep, tier, seed, only=None):
     rep.rule = ("case = (circuit, pass) effect predicate or (circuit, pipeline) sequencing equality; distinct by structural hash; "
                 "pairwise inequivalence after MergeEquivalentGates decided by z3 (sat = distinguishing input)")
     rep.explanation = "bounded exploration; z3 decides the truth-table clause"
-    rep.pmap(unit, [(seed * 211 + s, 30 if thorough else 12) for s in range(48 if thorough else 16)])
+    rep.pmap(unit, [(seed * 211 + s, 30 if thorough else 12) for s in range(192 if thorough else 64)])
